@@ -43,7 +43,7 @@ def prepare(parsed, i, j, enter_data=False):
     executable = not R.non_minif(nodes)
     items = R.item_sexps(parsed, nodes) if executable else R.access_items(parsed, nodes)
     excluded = any(it == ["x"] for it in items)
-    lines = [R.line("trans", 1 if enter_data else 0, parsed.parent_pairs(), items)]
+    lines = [R.line("trans", 1 if enter_data else 0, R.call_argument_vars(parsed, nodes), parsed.parent_pairs(), items)]
     ctx = {"parsed": parsed, "i": i, "j": j, "enter": enter_data, "real": real, "excluded": excluded, "nexec": 0}
     if not excluded and nodes:
         region = parsed.export(nodes, access_only=not executable)
